@@ -107,7 +107,7 @@ theorem step_nextSid (cfg : Cfg) (st : St) (e : Ev) :
     · simp only [step, h, ne_eq, not_true_eq_false, if_false, if_true]
       split
       · rfl
-      · simp only [doSend]; rw [(checkSendBatch_stat cfg _).1]
+      · simp only [doSend]; rw [(checkSendBatch_stat cfg _).1]; rfl
     · simp only [step, h, ne_eq, not_false_eq_true, if_true, if_false]
   | cancel sid =>
     simp only [step]; split
